@@ -634,6 +634,14 @@ func families(tier string) []fw.Family {
 			segFamily("arc(r in {.5,1,2,3}^2, rot {0,30,45,90,135}, flags, end [-2..2]^2)"+sfx, curvefam.NArc, arc, f, tols),
 		)
 	}
+	// the same arcs a thousand times smaller, with tolerances a thousand times finer (quantities of
+	// the size of length^4 meet absolute epsilons there); every 7th arc in quick
+	step := int64(7)
+	if tier == "thorough" {
+		step = 1
+	}
+	small := []float64{1e-4, 1e-5, 1e-6}
+	fs = append(fs, segFamily(fmt.Sprintf("arc(...) x0.001 (every %d.), tolerances 1e-4..1e-6", step), curvefam.NArc/step, func(i int64) oracle.Seg { return curvefam.Arc(i*step, rots) }, 0.001, small))
 	fs = append(fs, twoSegments(tols), twoSubpaths(tols), thinEllipses(tols), nearCollinear(tier), largeFine(tier), lineBetweenCurves(tols), almostClosedArcs(tols))
 	return fs
 }
